@@ -61,4 +61,4 @@ def lemma_split_invariance(tier):
 LEMMAS = [lemma_seconds_in_year, lemma_split_invariance]
 
 from shell import runtime as _runtime
-SHELL = [_runtime.contracts_at_run_time]
+SHELL = [_runtime.contracts_at_run_time, _runtime.aware_intervals]
